@@ -144,6 +144,11 @@ func (server *Server) pop(conn *redis.Conn, key string, count int, isLPop bool) 
 		elems, ok = list.RPop(count)
 	}
 
+	if list.Len() == 0 {
+		// A list that has lost its last element no longer exists.
+		db.RemoveRecord(key)
+	}
+
 	if !ok || len(elems) == 0 {
 		return redis.NewNilMessage(), nil
 	}
